@@ -30,14 +30,9 @@ def stmtPlainOpts : Stmt → Bool
   | .modifyColumn _ c => colDefPlain c
   | _ => true
 
-def coptNoComment : COpt → Bool
-  | .comment _ => false
-  | _ => true
-
 /-- conditions on every table of either side -/
 def tableOK (tb : TableSpec) : Bool :=
-  tb.name != "" && tb.name != Migration.defaultMigrationTable && tb.fks.isEmpty &&
-    tb.cols.all (fun c => c.opts.all coptNoComment)
+  tb.name != "" && tb.name != Migration.defaultMigrationTable && tb.fks.isEmpty
 
 /-- conditions on a table both sides have: common columns in the same relative order, no empty column name, the same
     primary key, and no index redefined under its name while all columns of its old (`up`) / new (`down`) definition go -/
@@ -68,7 +63,6 @@ def whyNot (g : Globals) (old new : List Stmt) (dbO dbN : DB) : String :=
   else if !(old.all stmtElemSafe && new.all stmtElemSafe) then "vocabulary"
   else if !(old.all stmtPlainOpts && new.all stmtPlainOpts) then "inline-primary-key-or-reference"
   else if !(dbO ++ dbN).all (fun tb => tb.fks.isEmpty) then "foreign-keys"
-  else if !(dbO ++ dbN).all (fun tb => tb.cols.all (fun c => c.opts.all coptNoComment)) then "comment-option"
   else if !(dbO ++ dbN).all tableOK then "table-name"
   else if !pairOK true dbO dbN then "common-table"
   else "inside"
